@@ -12,7 +12,7 @@ For every mode `B` of blend.py (model: `Model/Blend.lean`), for all `Cb, Cs ∈ 
 * the tie to `BLEND_FUNC` / `BlendMode` / the wrapper's `k` / the numeric literals (regenerated each run).
 Purity (arguments unmodified) is a runtime aliasing fact: checked by the harness, not expressible here.
 -/
-import PsdVerif.Lemmas.BlendNonSep
+import PsdVerif.Lemmas.BlendLipschitz
 import PsdVerif.Generated.Blend
 
 namespace PsdVerif.C12
@@ -422,16 +422,40 @@ theorem lighter_color_near_spec : lighterColor Pb Ps = Spec.lighterColor Pb Ps :
   unfold lighterColor Spec.lighterColor; simp only [← lum_eq_spec]
   split_ifs <;> first | rfl | (exfalso; linarith)
 
-/-- Hue / Saturation: the first stage (`_set_sat` of the right colour with the right saturation) is
-within `tol δ` of the published one; the composition with `SetLum` is covered by correspondence and
-the float64 oracle only (see the notes in the evidence). -/
-theorem hue_first_stage_near_spec (δ : Rat) (hδ : 0 < δ) (hb : Pb.All unit) (hoff : offDiscSat δ Ps) :
-    RGB.near (tol δ) (setSat Ps (sat Pb)) (Spec.setSat Ps (Spec.sat Pb)) := by
-  rw [← sat_eq_spec]; exact set_sat_near_spec δ hδ Ps (sat_unit hb) hoff
+/-- tolerance of the two-stage modes: `10 ε` for `_clip_color` plus the first stage's `tol δ`
+carried through the published `SetLum` (Lipschitz constant `2 (1 + 100/11)`);
+`hueTol (1/65535) < 1.33·10⁻³` -/
+def hueTol (δ : Rat) : Rat := 10 * eps + (1 + 100 / 11) * (2 * tol δ)
 
-theorem saturation_first_stage_near_spec (δ : Rat) (hδ : 0 < δ) (hs : Ps.All unit) (hoff : offDiscSat δ Pb) :
-    RGB.near (tol δ) (setSat Pb (sat Ps)) (Spec.setSat Pb (Spec.sat Ps)) := by
-  rw [← sat_eq_spec]; exact set_sat_near_spec δ hδ Pb (sat_unit hs) hoff
+theorem hueTol_16bit : hueTol (1 / 65535) ≤ 133 / 100000 := by unfold hueTol tol eps; norm_num
+
+/-- Hue: within `hueTol δ` of `SetLum(SetSat(Cs, Sat(Cb)), Lum(Cb))` when the source's saturation is
+0 or at least `δ` (the published `SetSat` jumps at zero saturation) -/
+theorem hue_near_spec (δ : Rat) (hδ : 0 < δ) (hb : Pb.All unit) (hs : Ps.All unit)
+    (hoff : offDiscSat δ Ps) : RGB.near (hueTol δ) (hue Pb Ps) (Spec.hue Pb Ps) := by
+  unfold hue Spec.hue hueTol
+  rw [← sat_eq_spec, ← lum_eq_spec]
+  have hsat := sat_unit hb
+  have hL := lum_unit hb
+  have hX := set_sat_range Ps hsat
+  have hY := specSetSat_unit Ps hsat
+  have h1 := set_sat_near_spec δ hδ Ps hsat hoff
+  exact RGB.near_trans (setLum_near_spec _ _ hL (width_le_one hX))
+    (specSetLum_lipschitz _ _ _ _ hL (width_le_one hX) (width_le_one hY) h1)
+
+/-- Saturation: within `hueTol δ` of `SetLum(SetSat(Cb, Sat(Cs)), Lum(Cb))` when the backdrop's
+saturation is 0 or at least `δ` -/
+theorem saturation_near_spec (δ : Rat) (hδ : 0 < δ) (hb : Pb.All unit) (hs : Ps.All unit)
+    (hoff : offDiscSat δ Pb) : RGB.near (hueTol δ) (saturation Pb Ps) (Spec.saturation Pb Ps) := by
+  unfold saturation Spec.saturation hueTol
+  rw [← sat_eq_spec, ← lum_eq_spec]
+  have hsat := sat_unit hs
+  have hL := lum_unit hb
+  have hX := set_sat_range Pb hsat
+  have hY := specSetSat_unit Pb hsat
+  have h1 := set_sat_near_spec δ hδ Pb hsat hoff
+  exact RGB.near_trans (setLum_near_spec _ _ hL (width_le_one hX))
+    (specSetLum_lipschitz _ _ _ _ hL (width_le_one hX) (width_le_one hY) h1)
 
 /-! ### The CMYK wrapper -/
 
@@ -519,6 +543,48 @@ theorem offDisc_hard_mix_of_grid (N a b : Nat) (hN : 0 < N) (hN' : N ≤ 65535) 
     have hq : (N : Rat) + 1 ≤ a + b := by exact_mod_cast Nat.succ_le_of_lt h
     have : 1 + (1 : Rat) / N ≤ (a + b) / N := by
       rw [le_div_iff₀ hNq, add_mul, div_mul_cancel₀ _ hNq.ne']; linarith
+    linarith
+
+theorem offDisc_vivid_of_grid (N a b : Nat) (hN : 0 < N) (hN' : N ≤ 65535) (hb : b ≤ N) :
+    offDiscVivid (1 / 65535) (a / N) (b / N) := by
+  have hNq : (0 : Rat) < N := by exact_mod_cast hN
+  have hN65 : (N : Rat) ≤ 65535 := by exact_mod_cast hN'
+  have h2 : (1 : Rat) / 65535 ≤ 1 / N := one_div_le_one_div_of_le hNq hN65
+  unfold offDiscVivid offDiscBurn offDiscDodge
+  constructor
+  · intro _
+    by_cases h : b = 0
+    · left; rw [h]; simp
+    · right
+      have hq : (1 : Rat) ≤ b := by exact_mod_cast Nat.one_le_iff_ne_zero.mpr h
+      have h1 : (1 : Rat) / N ≤ b / N := div_le_div_of_nonneg_right hq hNq.le
+      linarith
+  · intro _
+    by_cases h : b = N
+    · left; rw [h, div_self hNq.ne']; norm_num
+    · right
+      have hlt : b + 1 ≤ N := Nat.succ_le_of_lt (lt_of_le_of_ne hb h)
+      have hq : (b : Rat) + 1 ≤ N := by exact_mod_cast hlt
+      have h1 : (1 : Rat) / N ≤ 1 - b / N := by
+        rw [div_le_iff₀ hNq, sub_mul, div_mul_cancel₀ _ hNq.ne']; linarith
+      linarith
+
+/-- divide: every grid point except `(0, 0)` (where the published quotient is undefined) -/
+theorem offDisc_divide_of_grid (N a b : Nat) (hN : 0 < N) (hN' : N ≤ 65535) (hne : ¬ (a = 0 ∧ b = 0)) :
+    offDiscDivide (1 / 65535) (a / N) (b / N) := by
+  have hNq : (0 : Rat) < N := by exact_mod_cast hN
+  have hN65 : (N : Rat) ≤ 65535 := by exact_mod_cast hN'
+  have h2 : (1 : Rat) / 65535 ≤ 1 / N := one_div_le_one_div_of_le hNq hN65
+  unfold offDiscDivide
+  by_cases h : b = 0
+  · right
+    have ha : a ≠ 0 := fun ha => hne ⟨ha, h⟩
+    have hq : (1 : Rat) ≤ a := by exact_mod_cast Nat.one_le_iff_ne_zero.mpr ha
+    have h1 : (1 : Rat) / N ≤ a / N := div_le_div_of_nonneg_right hq hNq.le
+    exact ⟨by rw [h]; simp, by linarith⟩
+  · left
+    have hq : (1 : Rat) ≤ b := by exact_mod_cast Nat.one_le_iff_ne_zero.mpr h
+    have h1 : (1 : Rat) / N ≤ b / N := div_le_div_of_nonneg_right hq hNq.le
     linarith
 
 /-! ### Non-vacuity of the hypotheses -/
